@@ -158,3 +158,35 @@ func reMandatoryGroup(re *syntax.Regexp, g int) (int, bool) {
 	}
 	return 0, false
 }
+
+
+// submatchLen: v is the result of FindStringSubmatch / FindSubmatch of a global constant pattern; returns the
+// number of elements of a non-nil result (1 + number of groups).
+func (w *World) submatchLen(v ssa.Value) (int, bool) {
+	call, ok := v.(*ssa.Call)
+	if !ok || call.Call.StaticCallee() == nil || fnPkgPath(call.Call.StaticCallee()) != "regexp" {
+		return 0, false
+	}
+	switch call.Call.StaticCallee().Name() {
+	case "FindStringSubmatch", "FindSubmatch":
+	default:
+		return 0, false
+	}
+	ld, ok := call.Call.Args[0].(*ssa.UnOp)
+	if !ok {
+		return 0, false
+	}
+	gl, ok := ld.X.(*ssa.Global)
+	if !ok {
+		return 0, false
+	}
+	pat, ok := w.globalRegexPattern(gl)
+	if !ok {
+		return 0, false
+	}
+	re, err := syntax.Parse(pat, syntax.Perl)
+	if err != nil {
+		return 0, false
+	}
+	return re.MaxCap() + 1, true
+}
